@@ -210,6 +210,11 @@ func init() {
 			return "", err
 		}
 		sb.WriteString(r9)
+		r12, err := c14Round12Facts(repo, fo)
+		if err != nil {
+			return "", err
+		}
+		sb.WriteString(r12)
 		return sb.String(), nil
 	}})
 }
